@@ -253,6 +253,10 @@ def gen_sim(rnd):
     conf = simgen.gen_watcher(rnd, 'a', np_choices=(1, 2, 3, 4))
     conf['singleton'] = False
     conf['cmd'] = 'w_a --wid $(circus.wid) --k ((circus.env.Kk))'
+    if rnd.random() < .5 and os.environ.get('HOME'):
+        # a reference to a variable that only the daemon's own environment has: expanded with copy_env, left as it
+        # is without
+        conf['cmd'] += ' --h $(circus.env.HOME)'
     if argsmode == 'str':
         conf['args'] = "--n $(CIRCUS.WID) 'quoted arg' $(circus.zz_u)"
     elif argsmode == 'list':
@@ -261,7 +265,6 @@ def gen_sim(rnd):
     conf['copy_env'] = rnd.random() < .3
     if rnd.random() < .2:
         conf['env'] = None                       # no environment configured at all
-        conf['cmd'] = 'w_a --wid $(circus.wid) --k ((circus.env.Kk))'
     conf['working_dir'] = rnd.choice(['/tmp', '/', '/usr', None, None])     # None: not configured
     steps = simgen.gen_steps(rnd, ['a'], KINDS, 2, 9)
     if rnd.random() < .4:
